@@ -20,21 +20,23 @@ type c04Op struct {
 }
 
 type c04Case struct {
-	Transport string    `json:"transport"` // inproc tcp tcp-small tcp-tls | real: tcp tcp-tls ws wss
-	ChanBuf   int       `json:"chanBuf"`
-	InprocBuf int       `json:"inprocBuf,omitempty"`
-	PipeCap   int       `json:"pipeCap,omitempty"`
-	C2S       [][]c04Op `json:"c2s"` // one op list per client-side sender goroutine
-	S2C       [][]c04Op `json:"s2c"`
-	Consumer  string    `json:"consumer"`        // streams | mux
-	Delay     []int     `json:"delay,omitempty"` // per received envelope (cyclic): number of yields (virtual) / 100 µs units (real)
-	Real      bool      `json:"real,omitempty"`
-	SlowEvery int       `json:"slowEvery,omitempty"` // virtual time: every n-th received envelope the consumer pauses ...
-	SlowMs    int       `json:"slowMs,omitempty"`    // ... this long (longer than the TCP write poll, so that blocked writes time out and resume)
-	ReadLimit int64     `json:"readLimit,omitempty"` // TCP transports: configured read limit (0 = default)
-	Trace     bool      `json:"trace,omitempty"`     // TCP transports: a trace writer is configured
-	PC        []int     `json:"pc,omitempty"`        // noise next to the traffic: one client goroutine issues a ProcessCommand per entry and cancels it after that many yields; the server's consumer answers each
-	PCDup     bool      `json:"pcDup,omitempty"`     // ... twice
+	Transport  string    `json:"transport"` // inproc tcp tcp-small tcp-tls | real: tcp tcp-tls ws wss
+	ChanBuf    int       `json:"chanBuf"`
+	InprocBuf  int       `json:"inprocBuf,omitempty"`
+	PipeCap    int       `json:"pipeCap,omitempty"`
+	C2S        [][]c04Op `json:"c2s"` // one op list per client-side sender goroutine
+	S2C        [][]c04Op `json:"s2c"`
+	Consumer   string    `json:"consumer"`        // streams | mux
+	Delay      []int     `json:"delay,omitempty"` // per received envelope (cyclic): number of yields (virtual) / 100 µs units (real)
+	Real       bool      `json:"real,omitempty"`
+	SlowEvery  int       `json:"slowEvery,omitempty"`  // virtual time: every n-th received envelope the consumer pauses ...
+	SlowMs     int       `json:"slowMs,omitempty"`     // ... this long (longer than the TCP write poll, so that blocked writes time out and resume)
+	IdleMs     int       `json:"idleMs,omitempty"`     // virtual time: the established session stays idle this long before the traffic starts (longer than any deadline of the handshake)
+	NoDeadline bool      `json:"noDeadline,omitempty"` // sends use a context without a deadline
+	ReadLimit  int64     `json:"readLimit,omitempty"`  // TCP transports: configured read limit (0 = default)
+	Trace      bool      `json:"trace,omitempty"`      // TCP transports: a trace writer is configured
+	PC         []int     `json:"pc,omitempty"`         // noise next to the traffic: one client goroutine issues a ProcessCommand per entry and cancels it after that many yields; the server's consumer answers each
+	PCDup      bool      `json:"pcDup,omitempty"`      // ... twice
 }
 
 type c04Side interface {
@@ -237,6 +239,10 @@ func c04Drive(c *c04Case, cli, srv c04Side, col *c04Collector, obs *c04Obs, send
 					id := c04ID(dir, g, seq, op.Kind)
 					v := c04Build(id, op)
 					ctx, cancel := context.WithTimeout(context.Background(), sendTimeout)
+					if c.NoDeadline && seq%2 == 0 {
+						cancel()
+						ctx, cancel = context.WithCancel(context.Background())
+					}
 					err := sendOn(ctx, side, v)
 					cancel()
 					mu.Lock()
@@ -326,6 +332,12 @@ func judgeC04(c *c04Case, obs *c04Obs, o *Outcome) {
 	}
 	if c.SlowEvery > 0 {
 		o.Class("slow-consumer")
+	}
+	if c.IdleMs > 0 {
+		o.Class("idle-before-traffic")
+	}
+	if c.NoDeadline {
+		o.Class("sends-without-deadline")
 	}
 	if c.Trace {
 		o.Class("traced")
